@@ -79,6 +79,24 @@ def specs():
     s('fourier')(lambda mp, cb, arg: mp.fourier(cb(lambda x: x), [-1, 1], 3))
     s('odefun')(lambda mp, cb, arg: mp.odefun(cb(lambda x, y: y), 0, 1)(1.5))
     s('odefun_sys')(lambda mp, cb, arg: mp.odefun(cb(lambda x, y: [y[1], -y[0]]), 0, [1, 0])(2))
+    # closures / decorators: the callable is CREATED at another precision than the one it is CALLED at (a restore that uses
+    # the creation-time precision passes every same-precision test)
+    def _closure(mp, make, *xs):
+        p = mp.prec
+        mp.prec = p + 37
+        try:
+            f = make()
+        finally:
+            mp.prec = p
+        return f(*xs)
+    s('odefun_closure')(lambda mp, cb, arg: _closure(mp, lambda: mp.odefun(cb(lambda x, y: y), 0, 1), 1.5))
+    s('odefun_sys_closure')(lambda mp, cb, arg: _closure(mp, lambda: mp.odefun(cb(lambda x, y: [y[1], -y[0]]), 0, [1, 0]), 2))
+    s('memoize_closure')(lambda mp, cb, arg: _closure(mp, lambda: mp.memoize(cb(lambda x: mp.exp(x))), 0.75))
+    s('maxcalls_closure')(lambda mp, cb, arg: _closure(mp, lambda: mp.maxcalls(cb(lambda x: mp.exp(x)), 5), 0.75))
+    s('workprec_deco_closure')(lambda mp, cb, arg: _closure(mp, lambda: mp.workprec(80)(cb(lambda x: mp.exp(x))), 0.75))
+    s('extraprec_deco_closure')(lambda mp, cb, arg: _closure(mp, lambda: mp.extraprec(20)(cb(lambda x: mp.exp(x))), 0.75))
+    s('workdps_deco_closure')(lambda mp, cb, arg: _closure(mp, lambda: mp.workdps(30)(cb(lambda x: mp.exp(x))), 0.75))
+    s('extradps_deco_closure')(lambda mp, cb, arg: _closure(mp, lambda: mp.extradps(5)(cb(lambda x: mp.exp(x))), 0.75))
     s('invertlaplace_talbot')(lambda mp, cb, arg: mp.invertlaplace(cb(lambda p: 1 / (p + 1)), 1.0, method='talbot'))
     s('invertlaplace_stehfest')(lambda mp, cb, arg: mp.invertlaplace(cb(lambda p: 1 / (p + 1)), 1.0, method='stehfest'))
     s('invertlaplace_dehoog')(lambda mp, cb, arg: mp.invertlaplace(cb(lambda p: 1 / (p + 1)), 1.0, method='dehoog'))
